@@ -1,5 +1,5 @@
 (* C05, mscu part (positions: setpos / getpos).  Statements only. *)
-From DS Require Import Base.Prelude Model.SmcBase Model.SmcMscu Proofs.SmcMscuProofs.
+From DS Require Import Base.Prelude Model.SmcBase Model.SmcMscu Proofs.SmcMscuProofs Proofs.SmcMscuInv.
 
 (* a refused setpos (NAK switch, wrong parameter count) stores nothing, in every state *)
 Theorem C05_mscu_refused : forall fx e d a s num ps,
@@ -23,5 +23,30 @@ Theorem C05_mscu_readback_example :
          map EByte ($"#getstatus:17=2" ++ [CR; LF] ++ $"#getpos:0=2" ++ [CR; LF])))) OFalse
   = OReply ($"?getpos:0=2> 2000,1.5" ++ crlf).
 Proof. exact ms_setpos_readback_example. Qed.
-(* PARTIAL: that h_insert puts an entry stamped now at the end of a history without later entries
-   (sortedness argument) is validated by correspondence, not proved. *)
+(* History.insert with the stamp "now" on a history without later entries (below the 2^15 window):
+   the new entry is the newest one and History.get returns it unchanged at any later time *)
+Theorem C05_mscu_insert_now_readback : forall h nw pos t,
+  Z.of_nat (length h) < hist_cap -> Forall (fun y => fst y <= nw) h -> nw <= t ->
+  positions (h_insert h nw pos) t = Some pos.
+Proof. exact ms_insert_now_readback. Qed.
+Print Assumptions C05_mscu_insert_now_readback.
+
+(* frame: a command addressed to another servo, or one that is not setpos / stow / clean, leaves the
+   history of servo a untouched, whatever its outcome *)
+Theorem C05_mscu_hist_frame : forall fx e d a c,
+  touches a c = false -> hist_of a (fst (exec fx e d c)) = hist_of a d.
+Proof. exact ms_hist_frame. Qed.
+Print Assumptions C05_mscu_hist_frame.
+
+(* ... until the next write: setpos stamped now, then ANY commands that are not setpos/stow/clean of
+   that servo (queries, other servos, setup, disable, refused and malformed requests), clock at any
+   t >= now: getpos reads exactly the written values *)
+Theorem C05_mscu_setpos_now_until : forall fx e d a s pos cs t,
+  nth_opt a (servos d) = Some s -> Z.of_nat (length (hist s)) < hist_cap ->
+  Forall (fun y => fst y <= now d) (hist s) -> now d <= t ->
+  Forall (fun c => touches a c = false) cs ->
+  let d1 := upd_servo a (set_hist (h_insert (hist s) (now d) pos)) d in
+  exists h, hist_of a (exec_all fx e d1 cs) = Some h /\ positions h t = Some pos.
+Proof. exact ms_setpos_now_until. Qed.
+Print Assumptions C05_mscu_setpos_now_until.
+(* With entries dated in the future the read-back is the interpolation towards them, by design. *)
